@@ -612,6 +612,10 @@ def gen_case(rng, profile=None):
         outs.append(["-r", f"{SIMFS}rest.txt"])
     if has_adapters and not has_linked and rng.random() < P["p_info"] / 2:
         outs.append(["--wildcard-file", f"{SIMFS}wild.txt{rng.choice(['', '.gz'])}"])
+    if rng.random() < 0.06:
+        outs.append(rng.choice([["-Z"], ["--compression-level", "2"], ["--compression-level", "5"], ["--compression-level", "9"]]))
+    if rng.random() < 0.03:
+        outs.append(["--gc-content", rng.choice(["30", "62.5"])])
     if P["json"]:
         outs.append(["--json", f"{SIMFS}report.json"])
     if rng.random() < P["p_minimal_report"]:
